@@ -1,4 +1,4 @@
-CONSTANT Families = {"reject","rejnum","interp1","interpnd","aesth","median","median2","sky","skywide"}
+CONSTANT Families = {"reject","rejnum","interp1","interpnd","aesth","median","median2","sky","skywide","skytop"}
 CONSTANT Tier = "thorough"
 INIT Init
 NEXT Next
@@ -46,5 +46,6 @@ INVARIANT C17_SkyWidth
 INVARIANT C17_SkyOtherBits
 INVARIANT C17_SkyRowsIndependent
 INVARIANT C17_SkyWideIsolated
+INVARIANT C17_SkyTopBitAloneHarmless
 INVARIANT C17_SkyOnlyZeroes
 CHECK_DEADLOCK FALSE
